@@ -30,6 +30,24 @@ def resolve_src(ann, tmod):
     return t, None
 
 
+class _Unquote(ast.NodeTransformer):
+    """Forward references written as strings inside an annotation become the expressions they spell."""
+
+    def visit_Constant(self, node):
+        if isinstance(node.value, str):
+            try:
+                return self.visit(ast.parse(node.value, mode="eval").body)
+            except SyntaxError:
+                return node
+        return node
+
+
+def read_in_source_namespace(node, tmod):
+    expr = ast.Expression(_Unquote().visit(ast.parse(ast.unparse(node), mode="eval").body))
+    ast.fix_missing_locations(expr)
+    return RT.to_rt(eval(compile(expr, "<annotation>", "eval"), dict(vars(tmod))))  # noqa: S307
+
+
 def is_optional_rt(t):
     return t == RT.NONE or (t[0] == "union" and RT.NONE in t[1])
 
@@ -152,6 +170,14 @@ def judge_module(res, tmod, m, traces, k, strategy, sname, via_cli=None, rewrite
                 if p.default is None and not is_optional_rt(exp):
                     exp = RT.union([exp, RT.NONE])
                     res.count("optional_wraps_expected")
+                if got is None and isinstance(p.annotation, str):
+                    # a textual source annotation is copied as text; whether the stub imports the names it uses is C11's / C01's
+                    # subject (listed finding there) - here it is read the way the source reads it
+                    try:
+                        got = read_in_source_namespace(node, tmod)
+                        res.count("textual_annotations_read_in_the_source_namespace")
+                    except Exception:
+                        got = None
                 if got is None or got != exp:
                     bad("source-annotation-changed", f"{where}: source denotes {RT.show(exp)}, stub says {ast.unparse(node)}")
             elif want_traced:
@@ -191,8 +217,14 @@ def judge_module(res, tmod, m, traces, k, strategy, sname, via_cli=None, rewrite
             if exp is None:
                 if ast.unparse(node).strip("'\"") != expname:
                     bad("source-return-annotation-changed", f"{where}: source {expname}, stub {ast.unparse(node)}")
-            elif got != exp:
-                bad("source-return-annotation-changed", f"{where}: source {RT.show(exp)}, stub {ast.unparse(node)}")
+            else:
+                if got is None and isinstance(ann, str):
+                    try:
+                        got = read_in_source_namespace(node, tmod)  # see the parameter case
+                    except Exception:
+                        got = None
+                if got != exp:
+                    bad("source-return-annotation-changed", f"{where}: source {RT.show(exp)}, stub {ast.unparse(node)}")
             continue
         try:
             R = RT.to_rt(rw.rewrite(mt.shrink_types(rets, k))) if rets else None
